@@ -500,7 +500,9 @@ fn process_tags(
     idx_output: &mut BTreeMap<OrderIndex, OutputList>,
     bbb: &mut BoundingBoxBuilder,
 ) -> Result<Option<BoundingBox>> {
-    let mut element_errors: HashMap<OrderIndex, (SvgElement, SvgdxError)> = HashMap::new();
+    // ordered, so that the error (and its Debug form, which the CLI prints) does not
+    // depend on the process's hash seeds
+    let mut element_errors: BTreeMap<OrderIndex, (SvgElement, SvgdxError)> = BTreeMap::new();
     let remain = &mut Vec::new();
 
     while !tags.is_empty() && remain.len() != tags.len() {
